@@ -2,6 +2,7 @@
   C03 — Order-preserving kinds assign IDs in lexicographic (unsigned byte) order.
 -/
 import CSD.Lemmas.PFCMeta
+import CSD.Lemmas.RPDAC2
 
 namespace CSD.Props.C03
 open CSD CSD.PFC
@@ -47,6 +48,44 @@ theorem pfc_rank_identity (b : Nat) (S : List Str) (hv : validDict S = true)
   obtain ⟨_, hn, _, _⟩ := validDict_facts hv
   rw [extract_build b S hn k h1 h2]
   simp [Spec.extract, show k ≠ 0 by omega]
+
+/-! ### RPDAC (model of `RePair::extractStringAndCompareDAC`, `expandRuleAndCompareString` and of the
+binary search of `StringDictionaryRPDAC::locate`, over an arbitrary grammar) -/
+
+/-- **RPDAC IDs are lexicographic ranks**: whatever rules Re-Pair produced and however the strings
+were cut into symbols — as long as the rules are well-founded and sequence `i` expands to string `i`
+(`Represents`, re-validated on the real object on every run) — `locate(q)` is the specification's
+`locate`: the 1-based rank of `q` among the members, 0 for an absent string; every comparison reads
+inside the query's buffer. -/
+theorem rpdac_locate_is_rank (d : RPDAC.D) (S : List Str) (r : RPDAC.Represents d S) (hv : validDict S = true)
+    (q : Str) (hq : nulFree q) : RPDAC.locate d (RPDAC.bytesNat q) = some (Spec.locate S q) := by
+  obtain ⟨_, hn, hs, _⟩ := validDict_facts hv
+  exact RPDAC.locate_represents d S r hn hs q hq
+
+/-- `extract(i)` is the `i`-th smallest member; IDs outside `1 … n` extract nothing. -/
+theorem rpdac_extract_is_ith (d : RPDAC.D) (S : List Str) (r : RPDAC.Represents d S) (i : Nat) :
+    RPDAC.extract d i = if h : 1 ≤ i ∧ i ≤ S.length then some (RPDAC.bytesNat (S[i - 1]'(by omega))) else none :=
+  RPDAC.extract_represents d S r i
+
+/-- The comparison the search is built on is `strcmp` itself. -/
+theorem rpdac_compare_is_strcmp (g : RePair.Grammar) (hwf : g.wf = true) (syms : List Nat)
+    (hval : ∀ s ∈ syms, s < g.terminals + g.rules.length) (s q : Str)
+    (hexp : g.expand syms = RPDAC.bytesNat s) (hs : nulFree s) (hq : nulFree q) :
+    RPDAC.compareDAC g syms (RPDAC.bytesNat q) = some (scmp s q) :=
+  RPDAC.compareDAC_eq g hwf syms hval s q hexp hs hq
+
+/-- Non-vacuity: the grammar `99 → a b` and the sequences `[99]`, `[99, 99]` represent {ab, abab}. -/
+example : RPDAC.Represents { g := { terminals := 99, rules := [(97, 98)] }, seqs := [[99], [99, 99]] }
+    [[0x61, 0x62], [0x61, 0x62, 0x61, 0x62]] where
+  wf := by decide
+  len := rfl
+  valid := by decide
+  exp := by
+    intro i h1 h2
+    match i with
+    | 0 => rfl
+    | 1 => rfl
+    | n + 2 => simp at h1; omega
 
 example : validDict [[0x61], [0x62]] = true ∧ scmp [0x61] [0x62] < 0 := by decide
 
